@@ -3,25 +3,26 @@ import ast
 
 from .common import AnalysisError, Report
 from . import cxx, py, tables
-from .gnf import SymExec, Poly, compare_summaries, formula_str, poly_key_str, eval_formula, eval_poly, formula_atoms
+from .gnf import SymExec, Poly
 from .ir import walk_stmts, walk_expr, all_exprs, show
 from .paths import path_of
 
 META = {
-    'explanation': 'E-GNF: BasicZoneProcessor::calcStartDayOfMonth and tzdb.transformer.calc_day_of_month are summarised into guarded '
-                   'normal forms under a role map (daysInMonth/_days_in_month -> DIM, forComponents(..).dayOfWeek()/date(..).isoweekday() '
-                   '-> DOW) and compared on every ordering of their atoms; the previous/next-month paths of the summary give the set '
-                   'of day-of-month values that can spill across a year boundary, which must be inside the set the transformer '
-                   'rejects (read off by interpreting _create_rules_with_on_day_expansion on one-rule policies for every day value '
-                   'in January and December); calcStartDayOfMonth folded through its real body on its whole admitted domain against the '
-                   'calendar; E-TAB: no shipped rule uses such a value.',
-    'decided': 'the two implementations are the same decision procedure with the same results on every path; both callers pass '
-               '(year, inMonth, onDayOfWeek, onDayOfMonth) in that order; every (month, day-of-month) combination that can resolve '
-               'into another year is rejected by the compiler; no shipped rule (zonedb, zonedbx, zonedbpy) has such a combination; '
-               'a Zone UNTIL weekday expression is resolved with (untilYear, untilMonth, weekday, day), both the resolved month and '
-               'day are stored, and resolutions into month 0 or 13 are refused',
-    'not_decided': 'that the resolved day is the calendar\'s answer for all inputs: DIM and DOW are opaque here - their tables, the '
-                   'leap-year rule and the weekday anchor are decided by C06',
+    'explanation': 'tzdb.transformer.calc_day_of_month (E-SEQ over its ast) and BasicZoneProcessor::calcStartDayOfMonth (constant '
+                   'propagation through its real body, checked against the typed interpreter on probes; else the typed '
+                   'interpreter) are evaluated on every admitted (month, weekday, day-of-month) expression of the sampled years '
+                   'and compared with the calendar, so the two agree wherever both are defined; the arguments the two callers '
+                   'pass are compared as canonical terms (E-GNF); the day-of-month values that can resolve into a neighbouring year '
+                   'are computed from the calendar and must be inside the set the transformer refuses (read off by interpreting '
+                   '_create_rules_with_on_day_expansion on one-rule policies for every day value in January and December, three '
+                   'year ranges); E-TAB: no shipped rule uses such a value.',
+    'decided': 'both resolvers give the calendar\'s (month, day) - month 0 / 13 for the neighbouring year - on every expression of '
+               'the sampled years; both callers pass (year, inMonth, onDayOfWeek, onDayOfMonth) in that order; every (month, '
+               'day-of-month) combination that can resolve into another year is rejected by the compiler; no shipped rule (zonedb, '
+               'zonedbx, zonedbpy) has such a combination; a Zone UNTIL weekday expression is resolved with (untilYear, untilMonth, '
+               'weekday, day), both the resolved month and day are stored, and resolutions into month 0 or 13 are refused',
+    'not_decided': 'years outside the samples (2 or 3 years in the quick tier, 8 in the thorough tier, leap / common / century years '
+                   'and both ends of the range among them)',
     'assumptions': ['weekday numbers are 1..7 on both sides so that the (a - b + 7) % 7 shifts have non-negative operands '
                     '(truncating and flooring remainder coincide)', 'clang 14 parser', 'CPython ast'],
 }
@@ -36,34 +37,6 @@ SYM_PY = {'year': 'Y', 'month': 'M', 'on_day_of_week': 'W', 'on_day_of_month': '
 
 def _P(k):
     return Poly(dict(k))
-
-
-def _atom(p):
-    if len(p.t) == 1:
-        (k, v), = p.t.items()
-        if len(k) == 1 and v == 1:
-            return k[0]
-    return None
-
-
-def result_pair(res):
-    a = _atom(_P(res)) if res is not None else None
-    if a is not None and a[0] == 'init' and len(a[2]) == 2:
-        return (a[2][0], a[2][1])
-    return ('?', res)
-
-
-def summaries(cfg, lib):
-    f = lib.fn(CXX_FN)
-    if [p for p, _ in f.params] != list(SYM_CXX):
-        raise AnalysisError('%s: parameters %r do not match the role map %r' % (f.loc, [p for p, _ in f.params], list(SYM_CXX)))
-    sc = SymExec(sym=SYM_CXX, fn=FN_ROLES, fold_global=lib.global_value, unify_divmod=True).run(f.name, f.body, {})
-    tr = py.load(cfg, 'tools/tzdb/transformer.py')
-    g = tr.fn('calc_day_of_month')
-    if g.params != list(SYM_PY):
-        raise AnalysisError('%s: parameters %r do not match the role map %r' % (g.loc, g.params, list(SYM_PY)))
-    sp = SymExec(sym=SYM_PY, fn=FN_ROLES, lang='py', unify_divmod=True).run('calc_day_of_month', g.body, {})
-    return f, sc, g, sp
 
 
 def run(cfg):
@@ -351,12 +324,6 @@ def run(cfg):
             if e['onDayOfWeek'] != 0 and ((e['inMonth'] == 1 and e['onDayOfMonth'] in spill_prev) or (e['inMonth'] == 12 and e['onDayOfMonth'] in spill_next)):
                 R.violation('R3', c3, e.loc, 'rule (month %d, weekday %d, day %d) can resolve into another year' % (e['inMonth'], e['onDayOfWeek'], e['onDayOfMonth']))
     return R
-
-
-def _show_outcome(o):
-    kind, pair = o
-    return '%s (%s, %s)' % (kind, poly_key_str(pair[0]) if isinstance(pair[0], tuple) else pair[0],
-                           poly_key_str(pair[1]) if isinstance(pair[1], tuple) else pair[1])
 
 
 SELFTEST = [
